@@ -162,6 +162,13 @@ func (c *Ctx) checkErrNotDropped(rule string, rels ...string) {
 		}
 	}
 	L.OK(rule, "scope", fmt.Sprintf("packages %v", rels), "-", fmt.Sprintf("%d error tests inside loops examined, none lets the loop continue with an unrecorded error", nTests))
+	if cp := c.Controls(); cp != nil {
+		n := 0
+		for _, fn := range cp.SrcFuncs() {
+			n += len(errLostInLoop(fn))
+		}
+		L.ControlMustFire(rule, n > 0, "controls.ErrorDroppedByBreak leaves an inner loop with break after a failed step")
+	}
 }
 
 func errSourceName(v ssa.Value) string {
